@@ -12,7 +12,9 @@
 
   Lemmas: `Ptk.Props.C06Lemmas` (pieces of the differ), `Ptk.Props.C06Diff` (`diff_master`).
   More:   `Ptk.Props.C06Scroll` (`diff_done_scroll`: the exception in general),
-          `Ptk.Props.C06Wide` (arbitrary cells: `diff_confined_wide`, `no_scroll_wide`, `render_seq_geo`).
+          `Ptk.Props.C06Wide` (arbitrary cells: `diff_confined_wide`, `no_scroll_wide`, `render_seq_geo`),
+          `Ptk.Props.C06WideCells` (contents with wide characters: `diff_correct_wide`, `render_seq_wide`,
+          `incremental_eq_scratch_wide`).
 -/
 import Ptk.Props.C06Diff
 namespace Ptk.C06
